@@ -214,10 +214,20 @@ static void party_main(World &W, const Scen &sc, const Group &G, Party &P, long 
 struct Verdicts {
 	const Scen &sc; long kcase; int fired = 0; long long evals = 0; long long subsets = 0; bool reached = false, beyond_bound_stall = false;
 	Verdicts(const Scen &s, long k) : sc(s), kcase(k) {}
+	// stable class of the scenario: the deviation kinds of the faulty parties (unique, in descending catalogue
+	// order: unanswered, shift, bad_reveal, bc_alter, silent, false_complaint, wrong_share, builtin - so that a
+	// prefix "dev=unanswered" covers every combination with that kind), or honest-only (all-honest runs with
+	// t = 0 are a class of their own: there the broadcast needs the echo of every party)
+	std::string scen_class() const {
+		if (sc.F.empty()) return sc.t == 0 ? "honest-only:t=0" : "honest-only";
+		std::set<int, std::greater<int>> ks; for (auto &d : sc.devs) ks.insert(d.kind);
+		std::string r = "dev="; bool first = true; for (int k : ks) { if (!first) r += "+"; first = false; r += dev_name(k); }
+		return r;
+	}
 	void viol(const std::string &cls, int ph, const std::string &what, J w) {
 		fired++;
 		w.raw("scenario", sc.json()).kv("phase", phase_name(sc.proto, ph)).kv("seed", (unsigned long long)ctx.seed).kv("case", kcase);
-		violation(std::string("C15/") + cls + "/" + PNAME[sc.proto] + "." + phase_name(sc.proto, ph), what, w.str());
+		violation(std::string("C15/") + cls + "/" + PNAME[sc.proto] + "." + phase_name(sc.proto, ph) + "/" + scen_class(), what, w.str());
 	}
 };
 
@@ -472,7 +482,12 @@ static Dev make_dev(int kind, const Scen &sc, size_t f, Rng &r) {
 		// wrong first share to one honest recipient, and a wrong value again when the share is published
 		d.phase = (sc.proto == P_CDKG) ? (int)r.below(2) : 0;
 		d.victim = honest[r.below(honest.size())];
-		d.k = (long)((sc.proto == P_PVSS) ? t + 3 : ((sc.proto == P_RVSS || sc.proto == P_ZVSS) ? sc.tp + 4 : t + 4)); break; }
+		// PedersenVSS dealer: commitments, who, sigma -> broadcast t+3; joint protocols: the share is the second
+		// broadcast after the party's first end marker (own complaints may precede the marker)
+		d.k = (sc.proto == P_PVSS) ? (long)t + 3 : -2; break; }
+	case D_UNANSWERED: {
+		d.phase = (sc.proto == P_CDKG) ? (int)r.below(2) : 0;
+		d.victim = honest[r.below(honest.size())]; break; }
 	case D_SHIFT: d.phase = (sc.proto == P_CDKG) ? 1 : 0; break;
 	case D_BC_ALTER: {
 		d.phase = (np == 2) ? (int)r.below(2) : 0;
@@ -485,8 +500,8 @@ static Dev make_dev(int kind, const Scen &sc, size_t f, Rng &r) {
 
 static std::vector<int> kinds_for(int proto, bool dealer) {
 	if (proto == P_PVSS) return dealer ? std::vector<int>{D_BUILTIN, D_WRONG_SHARE, D_SILENT, D_BC_ALTER, D_BAD_REVEAL} : std::vector<int>{D_BUILTIN, D_FALSE_COMPLAINT, D_SILENT, D_BC_ALTER};
-	if (proto == P_ZVSS || proto == P_CDKG) return {D_BUILTIN, D_WRONG_SHARE, D_FALSE_COMPLAINT, D_SILENT, D_BC_ALTER, D_BAD_REVEAL, D_SHIFT};
-	return {D_BUILTIN, D_WRONG_SHARE, D_FALSE_COMPLAINT, D_SILENT, D_BC_ALTER, D_BAD_REVEAL};
+	if (proto == P_ZVSS || proto == P_CDKG) return {D_BUILTIN, D_WRONG_SHARE, D_FALSE_COMPLAINT, D_SILENT, D_BC_ALTER, D_BAD_REVEAL, D_SHIFT, D_UNANSWERED};
+	return {D_BUILTIN, D_WRONG_SHARE, D_FALSE_COMPLAINT, D_SILENT, D_BC_ALTER, D_BAD_REVEAL, D_UNANSWERED};
 }
 
 static void set_net(Scen &sc, int mode, Rng &r) {   // 0 plain, 1 delays, 2 pre-emption, 3 both
@@ -540,6 +555,9 @@ static void build_list(std::vector<Scen> &L) {
 			sc.F = {f}; Dev d = make_dev(kind, sc, f, r); d.phase = 0;
 			if (v < 2) { d.k = 1; d.k2 = 1 + v; } else if (v == 2) d.k = 0;
 			sc.devs = {d}; add(sc);
+		}
+		if (p != P_PVSS) {   // a complaint that the accused dealer leaves unanswered
+			Scen sc = base(p, 4 + r.below(2), 1); size_t f = r.below(sc.n); sc.F = {f}; Dev d = make_dev(D_UNANSWERED, sc, f, r); d.phase = 0; sc.devs = {d}; add(sc);
 		}
 		if (p == P_ZVSS || p == P_CDKG) {   // zero sharing with a coherently shifted polynomial (constant term 1)
 			Scen sc = base(p, 4, 1); size_t f = r.below(4); sc.F = {f}; sc.devs = {make_dev(D_SHIFT, sc, f, r)}; add(sc);
